@@ -6,11 +6,11 @@ correspondence run of `harness/props/c06.py`).  Histories are unbounded lists of
 `set_target_info` calls over arbitrary collectors (any ids, any described families of any type, with or without
 `describe`, `auto_describe` on or off).
 
-Finding F6 (confirmed on the real code): a collector whose own claimed names repeat — e.g. one describing `x`
-(counter, claims x, x_total, x_created) and `x_total` (gauge) — registers, but `unregister` deletes name by name and
-raises `KeyError` at the second `x_total`, leaving the collector registered with all its names freed.  The theorems
-about `unregister` and about whole histories therefore carry the hypothesis "own claimed names are duplicate-free"
-(`…_partial`), and `unregister_duplicate_names_counterexample` shows the model exhibits the failure.
+History of finding F6 (fixed in /repo by ec395f2): a collector whose own claimed names repeat — e.g. one describing
+`x` (counter, claims x, x_total, x_created) and `x_total` (gauge) — used to register with `x_total` recorded twice, and
+`unregister` then raised `KeyError` half-way.  `_get_names` now records every name once; the model follows, the
+theorems about `unregister` and about whole histories hold without any hypothesis on the collectors, and the old
+witness is kept as a regression `example`.
 -/
 import PromVerif.Lemmas.Registry
 
@@ -33,9 +33,13 @@ theorem suffix_table_union :
 
 example : suffixesOf .counter = [['_', 't', 'o', 't', 'a', 'l'], ['_', 'c', 'r', 'e', 'a', 't', 'e', 'd']] := by decide
 
-/-- `_get_names` computes the claims of the statement -/
-theorem getNames_eq_claims (ad : Bool) (c : Collector) : getNames ad c = claims ad c :=
-  PromVerif.Model.Registry.getNames_eq_claims ad c
+/-- `_get_names` yields exactly the names the statement says the collector claims … -/
+theorem getNames_mem_iff_claims (ad : Bool) (c : Collector) (n : Name) : n ∈ getNames ad c ↔ n ∈ claims ad c :=
+  mem_getNames_iff ad c n
+
+/-- … and records each of them once (what `unregister`'s name-by-name deletion relies on) -/
+theorem getNames_nodup (ad : Bool) (c : Collector) : (getNames ad c).Nodup :=
+  PromVerif.Model.Registry.getNames_nodup ad c
 
 /-! ### the invariant -/
 
@@ -50,119 +54,53 @@ theorem inv_register {s : State} (hi : Inv s) (c : Collector) : Inv (register s 
 theorem inv_setTargetInfo {s : State} (hi : Inv s) (l : Option Labels) : Inv (setTargetInfo s l).1 :=
   PromVerif.Model.Registry.inv_setTargetInfo hi l
 
-/- Full statement (false, see F6):  Inv s → Inv (unregister s c).1 -/
-/-- `unregister` keeps the invariant when the recorded names of the collector are duplicate-free (missing: the
-case of a collector whose own names repeat — there the invariant is lost, see the counter-example). -/
-theorem inv_unregister_partial {s : State} (hi : Inv s) (c : Collector)
-    (hnd : ∀ ns, (c, ns) ∈ s.collectorToNames → ns.Nodup) : Inv (unregister s c).1 := by
-  by_cases hk : c ∈ s.collectorToNames.map Prod.fst
-  · obtain ⟨⟨c', ns⟩, hm, rfl⟩ := List.mem_map.1 hk
-    exact inv_unregister_ok hi hm (hnd ns hm)
-  · rw [unregister_unknown hk]; exact hi
+theorem inv_unregister {s : State} (hi : Inv s) (c : Collector) : Inv (unregister s c).1 :=
+  PromVerif.Model.Registry.inv_unregister hi c
 
-/-- one step, any operation -/
-theorem inv_step_partial {s : State} (hi : Inv s) (ho : OwnNodup s) (op : Op) : Inv (step s op).1 := by
+/-- one step, any operation, raising or not -/
+theorem inv_step {s : State} (hi : Inv s) (op : Op) : Inv (step s op).1 := by
   cases op with
   | register c => exact inv_register hi c
-  | unregister c => exact inv_unregister_partial hi c (fun ns h => ho c ns h)
+  | unregister c => exact inv_unregister hi c
   | setTargetInfo l => exact inv_setTargetInfo hi l
 
-private theorem step_autoDescribe (s : State) (op : Op) : (step s op).1.autoDescribe = s.autoDescribe := by
-  cases op with
-  | register c =>
-    simp only [step, register]; split <;> rfl
-  | unregister c =>
-    simp only [step, unregister]
-    split
-    · rfl
-    · split <;> rfl
-  | setTargetInfo l =>
-    simp only [step, setTargetInfo]
-    split
-    · split <;> rfl
-    · split <;> rfl
-
-private theorem setTargetInfo_c2n (s : State) (l : Option Labels) :
-    (setTargetInfo s l).1.collectorToNames = s.collectorToNames := by
-  simp only [setTargetInfo]
-  split
-  · split <;> rfl
-  · split <;> rfl
-
-private theorem ownNodup_step {s : State} (hi : Inv s) (ho : OwnNodup s) (op : Op)
-    (hw : ∀ c, op = .register c → (getNames s.autoDescribe c).Nodup) : OwnNodup (step s op).1 := by
-  cases op with
-  | register c =>
-    simp only [step]
-    cases h : clashes s c
-    · rw [register_ok h]
-      intro c' ns hm
-      rcases (mem_dSet c' c ns _ _).1 hm with ⟨_, h2⟩ | ⟨_, h2⟩
-      · subst h2; exact hw c rfl
-      · exact ho c' ns h2
-    · rw [register_raise h]; exact ho
-  | unregister c =>
-    simp only [step]
-    by_cases hk : c ∈ s.collectorToNames.map Prod.fst
-    · obtain ⟨⟨c', ns⟩, hm, rfl⟩ := List.mem_map.1 hk
-      rw [unregister_ok hi hm (ho _ _ hm)]
-      intro c'' ns' hm'
-      exact ho c'' ns' ((mem_dDel _ _ _ _).1 hm').2
-    · rw [unregister_unknown hk]; exact ho
-  | setTargetInfo l =>
-    intro c ns hm
-    simp only [step, setTargetInfo_c2n] at hm
-    exact ho c ns hm
-
-private theorem inv_run_aux (ad : Bool) (ops : List Op) :
-    ∀ s : State, Inv s → OwnNodup s → s.autoDescribe = ad → WellDescribed ad ops →
-      Inv (run s ops).1 ∧ OwnNodup (run s ops).1 := by
+private theorem inv_run_aux (ops : List Op) : ∀ s : State, Inv s → Inv (run s ops).1 := by
   induction ops with
-  | nil => intro s hi ho _ _; exact ⟨hi, ho⟩
+  | nil => intro s hi; exact hi
   | cons op ops ih =>
-    intro s hi ho had hw
+    intro s hi
     simp only [run]
-    apply ih
-    · exact inv_step_partial hi ho op
-    · apply ownNodup_step hi ho
-      intro c e
-      rw [had]
-      exact hw c (by simp [e])
-    · rw [step_autoDescribe, had]
-    · intro c hc
-      exact hw c (List.mem_cons_of_mem _ hc)
+    exact ih _ (inv_step hi op)
 
-/- Full statement (false, see F6):  ∀ ad ti ops, Inv (run (init ad ti) ops).1 -/
-/-- **Every history keeps the invariant** — any length, any collectors, any interleaving of the three calls
-including the ones that raise — provided every collector it registers claims pairwise distinct names. -/
-theorem inv_run_partial (ad : Bool) (ti : Option Labels) (ops : List Op) (hw : WellDescribed ad ops) :
-    Inv (run (init ad ti) ops).1 :=
-  (inv_run_aux ad ops (init ad ti) (inv_init ad ti) (by
-      intro c ns hm
-      have : (init ad ti).collectorToNames = [] := setTargetInfo_c2n _ _
-      rw [this] at hm; simp at hm)
-    (step_autoDescribe ⟨[], [], ad, some []⟩ (.setTargetInfo ti)) hw).1
+/-- **Every history keeps the invariant** — any length, any collectors (any ids, families, types, with or without
+`describe`, names repeated or not), any interleaving of the three calls including the ones that raise, any
+`auto_describe` flag and initial target info. -/
+theorem inv_run (ad : Bool) (ti : Option Labels) (ops : List Op) : Inv (run (init ad ti) ops).1 :=
+  inv_run_aux ops _ (inv_init ad ti)
 
 private def exA : Collector := ⟨0, some [(['x'], .counter)], []⟩
 private def exB : Collector := ⟨1, none, [⟨['x', '_', 't', 'o', 't', 'a', 'l'], .gauge, [], [], []⟩]⟩
 
-example : WellDescribed true [.register exA, .register exB, .unregister exA, .register exB,
-    .setTargetInfo (some [(['a'], ['b'])])] := by
-  intro c hc
-  simp only [List.mem_cons, List.not_mem_nil, or_false] at hc
-  rcases hc with h | h | h | h | h
-  · cases h; decide
-  · cases h; decide
-  · cases h
-  · cases h; decide
-  · cases h
+/-- **Headline over all histories**: after any history, no name is claimed by two registered collectors, and none
+claims `target_info` while target info is configured. -/
+theorem no_double_claim_run (ad : Bool) (ti : Option Labels) (ops : List Op) {c₁ c₂ : Collector} {ns₁ ns₂ : List Name}
+    {n : Name} (h₁ : (c₁, ns₁) ∈ (run (init ad ti) ops).1.collectorToNames)
+    (h₂ : (c₂, ns₂) ∈ (run (init ad ti) ops).1.collectorToNames)
+    (hn₁ : n ∈ claims (run (init ad ti) ops).1.autoDescribe c₁)
+    (hn₂ : n ∈ claims (run (init ad ti) ops).1.autoDescribe c₂) : c₁ = c₂ := by
+  have hi := inv_run ad ti ops
+  have a : (n, Owner.coll c₁) ∈ (run (init ad ti) ops).1.namesToCollectors :=
+    (hi.graph _ _).2 (Or.inl ⟨c₁, ns₁, rfl, h₁, by rw [hi.stored c₁ ns₁ h₁]; exact (mem_getNames_iff _ _ _).2 hn₁⟩)
+  have b : (n, Owner.coll c₂) ∈ (run (init ad ti) ops).1.namesToCollectors :=
+    (hi.graph _ _).2 (Or.inl ⟨c₂, ns₂, rfl, h₂, by rw [hi.stored c₂ ns₂ h₂]; exact (mem_getNames_iff _ _ _).2 hn₂⟩)
+  exact Owner.coll.inj (val_unique hi.n2cNodup a b)
 
 /-- **No two registered collectors claim one name** (consequence of the invariant). -/
 theorem no_double_claim {s : State} (hi : Inv s) {c₁ c₂ : Collector} {ns₁ ns₂ : List Name} {n : Name}
     (h₁ : (c₁, ns₁) ∈ s.collectorToNames) (h₂ : (c₂, ns₂) ∈ s.collectorToNames)
     (hn₁ : n ∈ claims s.autoDescribe c₁) (hn₂ : n ∈ claims s.autoDescribe c₂) : c₁ = c₂ := by
-  rw [← getNames_eq_claims, ← hi.stored c₁ ns₁ h₁] at hn₁
-  rw [← getNames_eq_claims, ← hi.stored c₂ ns₂ h₂] at hn₂
+  rw [← mem_getNames_iff, ← hi.stored c₁ ns₁ h₁] at hn₁
+  rw [← mem_getNames_iff, ← hi.stored c₂ ns₂ h₂] at hn₂
   have a : (n, Owner.coll c₁) ∈ s.namesToCollectors := (hi.graph _ _).2 (Or.inl ⟨c₁, ns₁, rfl, h₁, hn₁⟩)
   have b : (n, Owner.coll c₂) ∈ s.namesToCollectors := (hi.graph _ _).2 (Or.inl ⟨c₂, ns₂, rfl, h₂, hn₂⟩)
   exact Owner.coll.inj (val_unique hi.n2cNodup a b)
@@ -171,7 +109,7 @@ theorem no_double_claim {s : State} (hi : Inv s) {c₁ c₂ : Collector} {ns₁ 
 theorem target_info_not_double_claimed {s : State} (hi : Inv s) (ht : truthy s.targetInfo = true)
     {c : Collector} {ns : List Name} (h : (c, ns) ∈ s.collectorToNames) : tiName ∉ claims s.autoDescribe c := by
   intro hn
-  rw [← getNames_eq_claims, ← hi.stored c ns h] at hn
+  rw [← mem_getNames_iff, ← hi.stored c ns h] at hn
   have a : (tiName, Owner.coll c) ∈ s.namesToCollectors := (hi.graph _ _).2 (Or.inl ⟨c, ns, rfl, h, hn⟩)
   have b : (tiName, Owner.empty) ∈ s.namesToCollectors := (hi.graph _ _).2 (Or.inr ⟨rfl, rfl, ht⟩)
   exact Owner.noConfusion (val_unique hi.n2cNodup a b)
@@ -181,14 +119,14 @@ theorem claimed_iff_key {s : State} (hi : Inv s) (n : Name) :
     Claimed s n ↔ n ∈ s.namesToCollectors.map Prod.fst := by
   constructor
   · rintro (⟨c, ns, hm, hn⟩ | ⟨hn, ht⟩)
-    · rw [← getNames_eq_claims, ← hi.stored c ns hm] at hn
+    · rw [← mem_getNames_iff, ← hi.stored c ns hm] at hn
       exact List.mem_map.2 ⟨(n, Owner.coll c), (hi.graph _ _).2 (Or.inl ⟨c, ns, rfl, hm, hn⟩), rfl⟩
     · exact List.mem_map.2 ⟨(n, Owner.empty), (hi.graph _ _).2 (Or.inr ⟨rfl, hn, ht⟩), rfl⟩
   · intro h
     obtain ⟨⟨n', o⟩, hm, rfl⟩ := List.mem_map.1 h
     rcases (hi.graph _ _).1 hm with ⟨c, ns, _, hc, hn⟩ | ⟨_, hn, ht⟩
     · refine Or.inl ⟨c, ns, hc, ?_⟩
-      rw [← getNames_eq_claims, ← hi.stored c ns hc]; exact hn
+      rw [← mem_getNames_iff, ← hi.stored c ns hc]; exact hn
     · exact Or.inr ⟨hn, ht⟩
 
 /-! ### a call that would clash raises `ValueError` and changes nothing -/
@@ -209,13 +147,13 @@ theorem register_raises_iff_clash {s : State} (hi : Inv s) (c : Collector) :
     constructor
     · intro e; cases e
     · rintro ⟨n, hn, hc⟩
-      rw [← getNames_eq_claims] at hn
+      rw [← mem_getNames_iff] at hn
       exact absurd ((claimed_iff_key hi n).1 hc) (hf n hn)
   · rw [register_raise h]
     simp only [true_iff]
     simp only [clashes, List.any_eq_true] at h
     obtain ⟨n, hn, hh⟩ := h
-    refine ⟨n, by rw [← getNames_eq_claims]; exact hn, (claimed_iff_key hi n).2 ((dHas_iff _ _).1 hh)⟩
+    refine ⟨n, (mem_getNames_iff _ _ _).1 hn, (claimed_iff_key hi n).2 ((dHas_iff _ _).1 hh)⟩
 
 /-- **A registration that raises leaves the registry exactly as it was.** -/
 theorem register_clash_is_frame (s : State) (c : Collector) (h : (register s c).2 ≠ none) :
@@ -273,14 +211,12 @@ theorem unregister_unknown_is_frame (s : State) (c : Collector) (h : c ∉ s.col
 
 /-! ### unregister releases all and only the collector's names -/
 
-/- Full statement (false, see F6): the same without `hnd`. -/
-/-- **Unregistering a registered collector whose names are duplicate-free** does not raise, keeps the invariant,
-removes it (and only it) from the registered collectors, frees exactly its names (every other entry of the name
-map is untouched, in place), leaves target info alone, and afterwards the collector itself — or any collector that
-was blocked by nothing but this collector's names — can be registered.
-Missing: collectors whose own claimed names repeat (`unregister_duplicate_names_counterexample`). -/
-theorem unregister_releases_exactly_partial {s : State} (hi : Inv s) {c : Collector} {names : List Name}
-    (hm : (c, names) ∈ s.collectorToNames) (hnd : names.Nodup) :
+/-- **Unregistering a registered collector** does not raise, keeps the invariant, removes it (and only it) from the
+registered collectors, frees exactly its names (every other entry of the name map is untouched, in place), leaves
+target info alone, and afterwards the collector itself — or any collector that was blocked by nothing but this
+collector's names — can be registered. -/
+theorem unregister_releases_exactly {s : State} (hi : Inv s) {c : Collector} {names : List Name}
+    (hm : (c, names) ∈ s.collectorToNames) :
     (unregister s c).2 = none ∧
     Inv (unregister s c).1 ∧
     (unregister s c).1.collectorToNames = s.collectorToNames.filter (fun e => decide (e.1 ≠ c)) ∧
@@ -291,6 +227,7 @@ theorem unregister_releases_exactly_partial {s : State} (hi : Inv s) {c : Collec
     (register (unregister s c).1 c).2 = none ∧
     (∀ d : Collector, (∀ n, n ∈ claims s.autoDescribe d → Claimed s n → n ∈ names) →
       (register (unregister s c).1 d).2 = none) := by
+  have hnd := stored_nodup hi hm
   have hinv := inv_unregister_ok hi hm hnd
   have hkeys : ∀ n, n ∈ (unregister s c).1.namesToCollectors.map Prod.fst ↔
       n ∈ s.namesToCollectors.map Prod.fst ∧ n ∉ names := by
@@ -308,7 +245,7 @@ theorem unregister_releases_exactly_partial {s : State} (hi : Inv s) {c : Collec
       rw [clashes_false_iff, had]
       intro n hn hk
       have := (hkeys n).1 hk
-      rw [getNames_eq_claims] at hn
+      rw [mem_getNames_iff] at hn
       exact this.2 (hd n hn ((claimed_iff_key hi n).2 this.1))
     rw [register_ok this]
   refine ⟨by rw [unregister_ok hi hm hnd], hinv, by rw [unregister_ok hi hm hnd]; rfl,
@@ -320,37 +257,31 @@ theorem unregister_releases_exactly_partial {s : State} (hi : Inv s) {c : Collec
     exact ⟨fun h => h.1, fun h => ⟨h, hn⟩⟩
   · apply hfree
     intro n hn _
-    rw [← getNames_eq_claims, ← hi.stored c names hm] at hn
+    rw [← mem_getNames_iff, ← hi.stored c names hm] at hn
     exact hn
 
--- the hypotheses are met by a registered collector with three distinct names
-example : ∃ s c names, Inv s ∧ (c, names) ∈ s.collectorToNames ∧ names.Nodup ∧ names.length = 3 :=
-  ⟨(register (init false none) exA).1, exA, getNames false exA, inv_register (inv_init _ _) _, by decide, by decide,
-    by decide⟩
+-- the hypotheses are met by a registered collector with three names
+example : ∃ s c names, Inv s ∧ (c, names) ∈ s.collectorToNames ∧ names.length = 3 :=
+  ⟨(register (init false none) exA).1, exA, getNames false exA, inv_register (inv_init _ _) _, by decide, by decide⟩
 
-/-! ### F6: the excluded case really fails -/
+/-! ### regression: the former F6 witness -/
 
-/-- describes `x` (counter) and `x_total` (gauge): claims x, x_total, x_created, x_total -/
-def f6Collector : Collector :=
+/-- describes `x` (counter) and `x_total` (gauge): the statement's claims are x, x_total, x_created, x_total -/
+private def f6Collector : Collector :=
   ⟨0, some [(['x'], .counter), (['x', '_', 't', 'o', 't', 'a', 'l'], .gauge)], []⟩
 
 /-- claims x -/
-def f6Other : Collector := ⟨1, some [(['x'], .gauge)], []⟩
+private def f6Other : Collector := ⟨1, some [(['x'], .gauge)], []⟩
 
-/-- **Counter-example (finding F6).**  `f6Collector` registers without error although its own names repeat;
-`unregister` then raises `KeyError` half-way: the collector is still registered (and collected) but every one of
-its names has been freed, so a second collector claiming `x` registers — two registered collectors claim `x`. -/
-theorem unregister_duplicate_names_counterexample :
+-- the collector's names are recorded once; it registers, blocks a collector claiming `x`, unregisters without
+-- error, frees every name, and the blocked collector then registers
+example :
+    getNames false f6Collector = [['x'], ['x', '_', 't', 'o', 't', 'a', 'l'], ['x', '_', 'c', 'r', 'e', 'a', 't', 'e', 'd']] ∧
     (register (init false none) f6Collector).2 = none ∧
-    ¬ (getNames false f6Collector).Nodup ∧
-    (unregister (register (init false none) f6Collector).1 f6Collector).2 = some .keyError ∧
-    (unregister (register (init false none) f6Collector).1 f6Collector).1.collectorToNames
-      = (register (init false none) f6Collector).1.collectorToNames ∧
-    (unregister (register (init false none) f6Collector).1 f6Collector).1.namesToCollectors = [] ∧
-    (register (unregister (register (init false none) f6Collector).1 f6Collector).1 f6Other).2 = none ∧
-    (register (unregister (register (init false none) f6Collector).1 f6Collector).1 f6Other).1.collectorToNames.map Prod.fst
-      = [f6Collector, f6Other] ∧
-    ['x'] ∈ claims false f6Collector ∧ ['x'] ∈ claims false f6Other := by
+    (register (register (init false none) f6Collector).1 f6Other).2 = some .valueError ∧
+    (unregister (register (init false none) f6Collector).1 f6Collector).2 = none ∧
+    (unregister (register (init false none) f6Collector).1 f6Collector).1 = init false none ∧
+    (register (unregister (register (init false none) f6Collector).1 f6Collector).1 f6Other).2 = none := by
   decide
 
 end PromVerif.Props.C06
